@@ -140,6 +140,8 @@ func checkC19(c *core.Ctx) {
 	texts := map[int]string{}
 	var nontrivial int64
 	hand := handJSONDocs()
+	var reused ast.QueryDocument
+	prevText, nreuse := "", 0
 	for i := 0; i < ndocs+len(hand); i++ {
 		var text string
 		if i < len(hand) {
@@ -157,6 +159,20 @@ func checkC19(c *core.Ctx) {
 		}
 		if !ok {
 			continue
+		}
+		// a decoder value that is used again (a json.Decoder reading a stream of documents into one variable):
+		// what an earlier document left behind must not show in a later one
+		if b2, err := json.Marshal(d); err == nil {
+			if err := json.Unmarshal(b2, &reused); err != nil {
+				c.Violation(fmt.Sprintf("decoding %q into a document value that held another document before: %v", text, err), GrammarMismatch{Kind: "crash", Text: text, Observed: err.Error()})
+			} else if got, want := gtListString(ProjectQuery(&reused)), gtListString(after); got != want {
+				nreuse++
+				if nreuse <= 5 {
+					c.Violation(fmt.Sprintf("decoding %q into a document value that held %q before gives %s, a fresh value gives %s", text, prevText, got, want),
+						GrammarMismatch{Kind: "tree", Source: "decode into a reused value", Text: text, Expected: want, Observed: got})
+				}
+			}
+			prevText = text
 		}
 		var ks []keyset
 		for _, op := range d.Operations {
